@@ -86,12 +86,27 @@ func sqlC03(args []string) error {
 			s.stats()
 		}
 		s.probes(t, rng)
+		if sc%3 == 2 {
+			s.squeeze(rng, t, maxRank)
+		}
 		for round := 0; round < 2; round++ {
 			// a transaction that is rolled back
 			s.begin()
 			k := 1 + rng.Intn(4)
 			for i := 0; i < k; i++ {
 				s.randDML(rng, t, maxRank)
+				// committed inserts of other transactions in between (sometimes enough to fill the page)
+				if rng.Intn(3) == 0 {
+					n := 1 + rng.Intn(3)
+					if rng.Intn(3) == 0 {
+						n = 20 + rng.Intn(50)
+					}
+					rows := [][]int{}
+					for j := 0; j < n; j++ {
+						rows = append(rows, randRow(rng, t, maxRank))
+					}
+					s.insertOther(t, rows)
+				}
 			}
 			s.endTxn(false)
 			s.probes(t, rng)
@@ -112,4 +127,44 @@ func sqlC03(args []string) error {
 		}
 	}
 	return tw.Close()
+}
+
+// squeeze: an open transaction shrinks / deletes / grows rows, other transactions then commit enough rows to use up
+// the room of the pages it touched, then it is rolled back: the rollback must still find the room to restore the
+// old images, and the rows of the others must survive.
+func (s *sqlRun) squeeze(rng *rand.Rand, t *tableDef, maxRank int) {
+	nc := len(t.cols)
+	s.begin()
+	for i := 0; i < 1+rng.Intn(2); i++ {
+		switch rng.Intn(4) {
+		case 0: // every row gets short values
+			set := [][2]int{}
+			for c := 0; c < nc; c++ {
+				if t.cols[c] == "varchar" {
+					set = append(set, [2]int{c, rng.Intn(3)})
+				}
+			}
+			if len(set) == 0 {
+				set = append(set, [2]int{rng.Intn(nc), rng.Intn(maxRank)})
+			}
+			s.update(t, set, predTrue)
+		case 1:
+			s.update(t, [][2]int{{rng.Intn(nc), rng.Intn(maxRank)}}, randAtom(rng, nc))
+		case 2:
+			s.delete(t, randAtom(rng, nc))
+		default:
+			s.randDML(rng, t, maxRank)
+		}
+	}
+	n := 30 + rng.Intn(220)
+	rows := [][]int{}
+	for j := 0; j < n; j++ {
+		rows = append(rows, randRow(rng, t, maxRank))
+	}
+	s.insertOther(t, rows)
+	if rng.Intn(2) == 0 {
+		s.randDML(rng, t, maxRank)
+	}
+	s.endTxn(false)
+	s.probes(t, rng)
 }
